@@ -493,12 +493,15 @@ fn run_case(c: &Case) -> Result<(bool, bool, bool), Failure> {
 						for (i, f) in out.iter().enumerate() {
 							let want = DC.0 as f64 * g[i];
 							// (a gain that lands within a hair of -60 dB is 0.001 or exactly 0: both are right)
-							let at_edge = (g[i] - 0.001).abs() < 1e-6 && f.left == 0.0;
+							let at_edge = ((g[i] - 0.001).abs() < 1e-6 && f.left == 0.0) || (g[i] == 0.0 && (f.left as f64 - 0.001 * DC.0 as f64).abs() < 1e-6);
+							// "exactly" silence / unity is asserted once the reference fade is over; while it
+							// is still running a value that merely rounds to 0 dB or -60 dB proves nothing
+							let fade_over = m.fade.tween.is_none();
 							ensure!((f.left as f64 - want).abs() <= 2e-5 || at_edge, "fade-envelope", "chunk {k} frame {i}: left = {}, reference gain {} -> {want}; state {:?}; case {c:?}", f.left, g[i], m.state);
-							if g[i] == 0.0 {
+							if g[i] == 0.0 && fade_over {
 								ensure!(f.left == 0.0 && f.right == 0.0, "fade-ends-at-exact-silence", "chunk {k} frame {i} = {f:?}, expected exact silence; case {c:?}");
 							}
-							if g[i] == 1.0 {
+							if g[i] == 1.0 && fade_over {
 								ensure!(f.left == DC.0 && f.right == DC.1, "fade-ends-at-exact-unity", "chunk {k} frame {i} = {f:?}, expected the source value; case {c:?}");
 							}
 						}
